@@ -113,6 +113,16 @@ def main(tier):
             ck.violation('c01:alias:%s_LINE' % sieg, '%s_LINE has the value %d, i.e. %s, but the Siegbahn line %s is the transition %s (value %d)' % (
                 sieg, a, '/'.join(other) or '?', sieg, iupac, b), dict(macro=sieg + '_LINE', value=a, iupac=iupac + '_LINE', iupac_value=b))
     st['siegbahn_aliases_checked'] = nalias
+    # the tables are made by a generator program at build time: a build that defines NDEBUG (b_ndebug=true, most release builds) must
+    # produce the very same tables (a reader whose work sits inside assert() reads nothing there)
+    import hashlib
+    from .. import build
+    for config in ('shipped', 'kissel'):
+        h = [hashlib.sha256(open(build.inline(config, nd), 'rb').read()).hexdigest() for nd in (False, True)]
+        if h[0] != h[1]:
+            ck.violation('c01:generator:tables-differ-when-built-with-NDEBUG:%s' % config, 'the generated table file of the %s configuration differs between the default build of the generator and one with -DNDEBUG' % config,
+                         dict(config=config, sha256_default=h[0], sha256_ndebug=h[1]))
+        st['generator_builds_compared_' + config] = 2
     flavours = ['plain'] if tier == 'quick' else ['plain', 'asan']
     cp = refdata.compton()
     for config in ('shipped', 'kissel'):
